@@ -281,6 +281,38 @@ def run(pm, ctx):
               'WSIGNORE is an inclusive state (all token rules stay active inside parentheses)',
               pm.cls(LEXER).module.relpath, msg='WSIGNORE is no longer an inclusive lexer state',
               key='C11-R6|inclusive')
+    # ---------------- R12: standard input is cut into specs in reading order
+    ctx.rule('C11-R12', 'the pieces standard input is split into reach specs_to_ir in the order '
+                        'they were read: the list of pieces is consumed from the front '
+                        '(pop(0)) or iterated forwards, never from the back')
+    from ..dataflow import defs as _defs
+    mn = pm.func('stone.cli.main')
+    pieces = [nm for nm, vals in _defs(mn.node).values.items()
+              if any(isinstance(v, ast.Call) and isinstance(v.func, ast.Attribute) and
+                     v.func.attr == 'split' and 'stdin' in unparse(v.func.value)
+                     for _, v, _ in vals)]
+    ctx.floor('C11-R12', len(pieces), 1, 'lists of pieces of the standard input text in cli.main')
+    for nm in pieces:
+        bad = []
+        for c in own_nodes(mn.node):
+            if isinstance(c, ast.Call) and isinstance(c.func, ast.Attribute) and \
+                    isinstance(c.func.value, ast.Name) and c.func.value.id == nm:
+                if c.func.attr == 'pop' and not (
+                        len(c.args) == 1 and isinstance(c.args[0], ast.Constant) and
+                        c.args[0].value == 0):
+                    bad.append(unparse(c))
+                elif c.func.attr in ('reverse', 'sort'):
+                    bad.append(unparse(c))
+            elif isinstance(c, ast.Call) and isinstance(c.func, ast.Name) and \
+                    c.func.id in ('reversed', 'sorted', 'set') and c.args and \
+                    isinstance(c.args[0], ast.Name) and c.args[0].id == nm:
+                bad.append(unparse(c))
+        ctx.check('C11-R12', not bad, 'cli.main consumes `%s` front to back' % nm, mn.loc,
+                  msg='cli.main takes the pieces of standard input out of order (%s): the specs '
+                      'reach the compiler in another order than the same text split into files, '
+                      'and namespace docs concatenate differently' % ', '.join(bad),
+                  key='C11-R12|%s|%s' % (mn.qualname, nm))
+
     # ---------------- R7: two-phase example population
     ctx.rule('C11-R7', 'examples of every namespace are registered before any example is computed '
                        '(an example may refer to an example of an imported namespace listed later); '
